@@ -183,7 +183,7 @@ theorem too_large_refused (s : Scheme) (e b p tl aLarge : Nat) (he : 0 < e) (hb 
   · intro h; simp [refused, h]
   · intro h
     simp only [refused, Bool.or_eq_false_iff, decide_eq_false_iff_not, Nat.not_lt] at h
-    have hle := h.1.1
+    have hle := h.1.1.1
     unfold maxTransferLength at hle
     dsimp only at hle
     constructor
@@ -218,7 +218,7 @@ theorem partition_instance (b l e aL aS nL n : Nat) (hb : 0 < b) (he : 0 < e) (h
 /-- the second half of `hblocks`: an object `add_object` accepts has encodable blocks - for No-Code,
     RaptorQ and Raptor up to the code's K maximum (larger blocks are refused since /repo 29615e2; before,
     the object was accepted and `Sender::read` panicked) and (after the repairs of D21 / D25: parity ≥ 1,
-    A_large + parity ≤ 256) Reed-Solomon.  Raptor blocks of 2 or 3 symbols are the exception (finding D23 / D26). -/
+    A_large + parity ≤ 255 since /repo d65a846) Reed-Solomon.  Raptor blocks of 2 or 3 symbols are the exception (finding D23 / D26). -/
 theorem accepted_blocks_encodable (s : Scheme) (e b p tl aLarge k : Nat)
     (hacc : refused s e b p tl aLarge = false) (hk1 : 1 ≤ k) (hk2 : k ≤ aLarge)
     (hrap : s = .raptor → k ≠ 2 ∧ k ≠ 3) : blockFails s k p = false := by
@@ -226,24 +226,24 @@ theorem accepted_blocks_encodable (s : Scheme) (e b p tl aLarge k : Nat)
   cases s with
   | nocode => rfl
   | raptorq =>
-    have h3 := hacc.2
+    have h3 := hacc.1.2
     simp only [beq_self_eq_true, Bool.or_true, Bool.true_and, decide_eq_false_iff_not] at h3
     simp only [blockFails, decide_eq_false_iff_not]
     omega
   | raptor =>
     have := hrap rfl
-    have h3 := hacc.2
+    have h3 := hacc.1.2
     simp only [beq_self_eq_true, Bool.true_or, Bool.true_and, decide_eq_false_iff_not] at h3
     simp only [blockFails, Bool.or_eq_false_iff, beq_eq_false_iff_ne, decide_eq_false_iff_not]
     exact ⟨this, by omega⟩
   | rs =>
-    have h2 := hacc.1.2
+    have h2 := hacc.1.1.2
     simp only [beq_self_eq_true, Bool.true_or, Bool.true_and, Bool.or_eq_false_iff, beq_eq_false_iff_ne,
       decide_eq_false_iff_not] at h2
     simp only [blockFails, Bool.or_eq_false_iff, beq_eq_false_iff_ne, decide_eq_false_iff_not]
     omega
   | rsus =>
-    have h2 := hacc.1.2
+    have h2 := hacc.1.1.2
     simp only [beq_self_eq_true, Bool.or_true, Bool.true_and, Bool.or_eq_false_iff, beq_eq_false_iff_ne,
       decide_eq_false_iff_not] at h2
     simp only [blockFails, Bool.or_eq_false_iff, beq_eq_false_iff_ne, decide_eq_false_iff_not]
@@ -256,6 +256,13 @@ theorem kmax_boundary :
     blockFails .raptor 8192 1 = false ∧ blockFails .raptor 8193 1 = true ∧
     refused .raptorq 4 56404 1 225616 56404 = true ∧ refused .raptorq 4 56403 1 225612 56403 = false ∧
     refused .raptor 4 8193 1 32772 8193 = true ∧ refused .raptor 4 8192 1 32768 8192 = false := by
+  decide
+
+/-- the Reed-Solomon limits of /repo d65a846: a block of `a_large + parity = 255` symbols is accepted, 256 is refused
+    (both FEC IDs); FEC Encoding ID 5 also refuses `B + parity > 255` whatever the object (8-bit OTI fields) -/
+theorem rs_boundary :
+    refused .rsus 1 255 1 254 254 = false ∧ refused .rsus 1 255 1 255 255 = true ∧
+    refused .rs 1 250 5 100 100 = false ∧ refused .rs 1 251 5 100 100 = true ∧ refused .rsus 1 251 5 100 100 = false := by
   decide
 
 /-- the hypotheses `emitTransfer … = some …` of the session-level theorems are always satisfiable: the
